@@ -160,6 +160,18 @@ CHECKS["C08"] = dict(
          "outside the property (LF and CRLF only); positions in the middle of a surrogate pair are not requested.",
     ref="4 C08", technique="TLA+ model checking (TLC) + spec-to-code replay + trace validation")
 
+CHECKS["C06"] = dict(
+    text="SpellCheck's acceptance test over the word-map semantics of DictOps is specified in spec/Spell.tla; TLC "
+         "checks, for every small dictionary with dialect tags, that listed forms and Capitalised/UPPER forms of "
+         "lower-case entries are accepted in their dialect, unknown words and other-dialect words are reported. On "
+         "the real code the check is data-driven: every curated word (thorough; stratified sample in quick) x 4 "
+         "dialects x forms, alone and inside sentences, plus non-words; TLC recomputes the expectation of each Spell "
+         "event from the harness's own word set and the entry's dialect (spec/trace/Trace_Spell.tla), including that "
+         "every suggestion is a dictionary word of the active dialect.",
+    note="Trusted: TLC; 'listed' = returned by the curated dictionary's words_iter(). Exhaustiveness over the ~130k "
+         "words comes from iterating the real dictionary in the harness (TLC is the oracle, not the enumerator).",
+    ref="4 C06", technique="TLA+ model checking (TLC) + trace validation (exhaustive over the dictionary in thorough)")
+
 NOT_YET = {}
 
 
